@@ -165,3 +165,270 @@ func poolFreshDecl(p *Pkg, name string) bool {
 	}
 	return true
 }
+
+// ---------------------------------------------------------------------------
+// Ownership discipline of pooled objects (session 4, after seeded change M_C17e: `defer pool.Put(v)`
+// added to a function that already ends with `pool.Put(v)` -- the object sits in the pool twice and
+// two later Get() calls, possibly on two goroutines, receive the SAME object).  "Get() is fresh and
+// owned until Put" is only sound if every object is Put at most once per Get and never touched after
+// its Put.  poolDisciplineOK is a purely syntactic, flow-sensitive check of a function body; anything
+// it cannot follow is refused (the caller then treats the function as writing unknown memory, which
+// fails the purity / package-state verdicts: fail closed).
+//   - a variable Put inside a defer may not be Put anywhere else in the function;
+//   - after a (non-deferred) Put(v) on some path, v may not be mentioned again on that path
+//     (no second Put, no use after release); loops are walked twice;
+//   - Put's argument must be a plain identifier; a Put nested inside another expression, a function
+//     literal or a go statement is refused.
+func poolDisciplineOK(body *ast.BlockStmt) bool {
+	if body == nil {
+		return true
+	}
+	isPut := func(c *ast.CallExpr) (*ast.Ident, bool, bool) { // (argument, is a Put call, well-formed)
+		sel, ok := c.Fun.(*ast.SelectorExpr)
+		if !ok || sel.Sel.Name != "Put" || len(c.Args) != 1 {
+			return nil, false, true
+		}
+		// only x.Put(..) where x is an identifier or selector (a pool variable); whether it really is a
+		// sync.Pool does not matter: being stricter on other Put methods only refuses more
+		id, ok := c.Args[0].(*ast.Ident)
+		if !ok {
+			return nil, true, false
+		}
+		return id, true, true
+	}
+	// the variables that are Put somewhere, and the deferred ones
+	put := map[*ast.Object]int{}
+	deferred := map[*ast.Object]int{}
+	ok := true
+	var deferCalls = map[*ast.CallExpr]bool{}
+	ast.Inspect(body, func(n ast.Node) bool {
+		switch x := n.(type) {
+		case *ast.DeferStmt:
+			deferCalls[x.Call] = true
+		case *ast.GoStmt:
+			if containsPut(x) {
+				ok = false
+			}
+		case *ast.FuncLit:
+			if containsPut(x.Body) {
+				ok = false
+			}
+		case *ast.CallExpr:
+			id, is, wf := isPut(x)
+			if is && (!wf || id.Obj == nil) {
+				ok = false
+			} else if is {
+				put[id.Obj]++
+				if deferCalls[x] {
+					deferred[id.Obj]++
+				}
+			}
+		}
+		return true
+	})
+	if !ok {
+		return false
+	}
+	for o, n := range deferred {
+		if n > 1 || put[o] != n {
+			return false // deferred and also Put elsewhere (or deferred twice)
+		}
+	}
+	for o := range put {
+		if deferred[o] > 0 {
+			continue
+		}
+		w := &putWalker{obj: o, ok: true}
+		w.stmts(body.List, false)
+		if !w.ok {
+			return false
+		}
+	}
+	return true
+}
+
+func containsPut(n ast.Node) bool {
+	found := false
+	ast.Inspect(n, func(m ast.Node) bool {
+		if c, ok := m.(*ast.CallExpr); ok {
+			if sel, ok := c.Fun.(*ast.SelectorExpr); ok && sel.Sel.Name == "Put" {
+				found = true
+			}
+		}
+		return !found
+	})
+	return found
+}
+
+type putWalker struct {
+	obj *ast.Object
+	ok  bool
+}
+
+func (w *putWalker) mentions(n ast.Node) bool {
+	if n == nil {
+		return false
+	}
+	found := false
+	ast.Inspect(n, func(m ast.Node) bool {
+		if id, ok := m.(*ast.Ident); ok && id.Obj == w.obj {
+			found = true
+		}
+		return !found
+	})
+	return found
+}
+
+// putsHere: the statement is exactly `x.Put(v)` for the tracked variable
+func (w *putWalker) putsHere(s ast.Stmt) bool {
+	es, ok := s.(*ast.ExprStmt)
+	if !ok {
+		return false
+	}
+	c, ok := es.X.(*ast.CallExpr)
+	if !ok {
+		return false
+	}
+	sel, ok := c.Fun.(*ast.SelectorExpr)
+	if !ok || sel.Sel.Name != "Put" || len(c.Args) != 1 {
+		return false
+	}
+	id, ok := c.Args[0].(*ast.Ident)
+	return ok && id.Obj == w.obj
+}
+
+// putsInside: a Put of the tracked variable somewhere inside n
+func (w *putWalker) putsInside(n ast.Node) bool {
+	found := false
+	ast.Inspect(n, func(m ast.Node) bool {
+		if c, ok := m.(*ast.CallExpr); ok {
+			if sel, ok := c.Fun.(*ast.SelectorExpr); ok && sel.Sel.Name == "Put" && len(c.Args) == 1 {
+				if id, ok := c.Args[0].(*ast.Ident); ok && id.Obj == w.obj {
+					found = true
+				}
+			}
+		}
+		return !found
+	})
+	return found
+}
+
+// stmts walks a statement list; released = the object may already be in the pool.
+// Returns (released afterwards, the list always leaves the function).
+func (w *putWalker) stmts(list []ast.Stmt, released bool) (bool, bool) {
+	for _, s := range list {
+		var term bool
+		released, term = w.stmt(s, released)
+		if term {
+			return released, true
+		}
+	}
+	return released, false
+}
+
+func (w *putWalker) stmt(s ast.Stmt, released bool) (bool, bool) {
+	if !w.ok {
+		return released, false
+	}
+	switch x := s.(type) {
+	case *ast.BlockStmt:
+		return w.stmts(x.List, released)
+	case *ast.LabeledStmt:
+		return w.stmt(x.Stmt, released)
+	case *ast.IfStmt:
+		if x.Init != nil && (w.putsInside(x.Init) || (released && w.mentions(x.Init))) {
+			w.ok = false
+		}
+		if w.putsInside(x.Cond) || (released && w.mentions(x.Cond)) {
+			w.ok = false
+		}
+		r1, t1 := w.stmts(x.Body.List, released)
+		r2, t2 := released, false
+		if x.Else != nil {
+			r2, t2 = w.stmt(x.Else, released)
+		}
+		switch {
+		case t1 && t2:
+			return released, true
+		case t1:
+			return r2, false
+		case t2:
+			return r1, false
+		}
+		return r1 || r2, false
+	case *ast.ForStmt, *ast.RangeStmt:
+		var body *ast.BlockStmt
+		var hdr []ast.Node
+		if f, ok := x.(*ast.ForStmt); ok {
+			body = f.Body
+			if f.Init != nil {
+				hdr = append(hdr, f.Init)
+			}
+			if f.Cond != nil {
+				hdr = append(hdr, f.Cond)
+			}
+			if f.Post != nil {
+				hdr = append(hdr, f.Post)
+			}
+		} else {
+			r := x.(*ast.RangeStmt)
+			body = r.Body
+			hdr = append(hdr, r.X)
+		}
+		for _, h := range hdr {
+			if w.putsInside(h) || (released && w.mentions(h)) {
+				w.ok = false
+			}
+		}
+		r1, _ := w.stmts(body.List, released)
+		if r1 && !released {
+			// second iteration with the object possibly released by the first
+			for _, h := range hdr {
+				if w.mentions(h) {
+					w.ok = false
+				}
+			}
+			w.stmts(body.List, true)
+		}
+		return released || r1, false // (a loop body that always returns is treated as falling through)
+	case *ast.SwitchStmt, *ast.TypeSwitchStmt, *ast.SelectStmt:
+		// not used around pooled objects in this library: refuse if the variable is involved at all
+		if w.mentions(s) {
+			w.ok = false
+		}
+		return released, false
+	case *ast.ReturnStmt:
+		if w.putsInside(s) || (released && w.mentions(s)) {
+			w.ok = false
+		}
+		return released, true
+	case *ast.DeferStmt, *ast.GoStmt:
+		if w.mentions(s) {
+			w.ok = false // (deferred Puts of this variable were handled before; any other deferred use is refused)
+		}
+		return released, false
+	case *ast.ExprStmt:
+		if w.putsHere(s) {
+			if released {
+				w.ok = false // second Put on this path
+			}
+			return true, false
+		}
+		if c, ok := x.X.(*ast.CallExpr); ok {
+			if id, ok := c.Fun.(*ast.Ident); ok && id.Name == "panic" && id.Obj == nil {
+				if w.putsInside(s) || (released && w.mentions(s)) {
+					w.ok = false
+				}
+				return released, true
+			}
+		}
+	}
+	if w.putsInside(s) {
+		w.ok = false // a Put nested inside another statement form
+		return true, false
+	}
+	if released && w.mentions(s) {
+		w.ok = false // use after release
+	}
+	return released, false
+}
